@@ -2,6 +2,7 @@ package props
 
 import (
 	"go/token"
+	"go/types"
 	"strings"
 
 	"golang.org/x/tools/go/ssa"
@@ -388,14 +389,17 @@ func c14() []*Ob {
 							continue
 						}
 						sorted := false
-						for _, s := range CallsIn(fn, Callee("sort.Sort", "sort.Stable", "slices.SortFunc", "sort.Slice")) {
+						for _, s := range CallsIn(fn, Callee("sort.Sort", "sort.Stable", "sort.Slice", "sort.SliceStable", "slices.SortFunc", "slices.SortStableFunc")) {
 							if Dominates(s.(ssa.Instruction), ret) {
 								sorted = true
 							}
 						}
 						// positive provenance: an element of the slice that was handed to sort.Sort, read after the sort
 						sortedVals := map[ssa.Value]bool{}
-						for _, sc := range CallsIn(fn, Callee("sort.Sort", "sort.Stable")) {
+						for _, sc := range CallsIn(fn, Callee("sort.Sort", "sort.Stable", "sort.Slice", "sort.SliceStable", "slices.SortFunc", "slices.SortStableFunc")) {
+							if _, isSlice := sc.Common().Args[0].Type().Underlying().(*types.Slice); isSlice {
+								sortedVals[sc.Common().Args[0]] = true
+							}
 							DerivesFrom(sc.Common().Args[0], func(v ssa.Value) bool {
 								if mi, ok := v.(*ssa.MakeInterface); ok {
 									sortedVals[mi.X] = true
@@ -420,10 +424,20 @@ func c14() []*Ob {
 									base = fa.X
 								}
 								ia, ok := base.(*ssa.IndexAddr)
-								if !ok || !sortedVals[ia.X] {
+								if !ok {
 									return false
 								}
-								for _, sc := range CallsIn(fn, Callee("sort.Sort", "sort.Stable", "slices.SortFunc", "sort.Slice")) {
+								// the same slice value, or another load of the same variable (a slice captured by the comparator closure lives in a cell)
+								same := sortedVals[ia.X]
+								for sv := range sortedVals {
+									if SameValue(sv, ia.X) {
+										same = true
+									}
+								}
+								if !same {
+									return false
+								}
+								for _, sc := range CallsIn(fn, Callee("sort.Sort", "sort.Stable", "sort.Slice", "sort.SliceStable", "slices.SortFunc", "slices.SortStableFunc")) {
 									if Dominates(sc.(ssa.Instruction), u) {
 										return true
 									}
